@@ -356,7 +356,9 @@ var mimes = []string{"text/html", "text/plain", "text/javascript", "application/
 	"application/zip", "audio/mpeg", "video/mp4", "font/woff2", "text/markdown", "application/yaml"}
 var tokens = []string{"utf-8", "gzip", "br", "en", "de", "iso-8859-1", "zstd", "fr", "es", "it", "pt", "nl", "sv", "da", "fi", "pl", "cs", "hu", "ja", "ko",
 	// look-alikes: sub-tags of a listed token, and tokens that only start with the letters of another one
-	"fr-CH", "en-US", "fil", "iso-8859-15", "deflate", "es-419", "zh", "zh-Hant"}
+	"fr-CH", "en-US", "fil", "iso-8859-15", "deflate", "es-419", "zh", "zh-Hant",
+	// ranges with two and more sub-tags: every prefix that ends at a hyphen is an offer they accept
+	"zh-Hant-TW", "en-US-x-twain", "iso-8859", "en-US-x"}
 var qPool = []string{"0", "0.0", "0.000", "0.001", "0.1", "0.5", "0.50", "0.9", "0.999", "1", "1.0", "1.000", "0.2", "0.3", "0.3", "0.30", "0.4", "0.6", "0.6", "0.600", "0.7", "0.7", "0.70", "0.8", "0.07", "0.33", "0.67", "0.123"}
 var pnames = []string{"charset", "level", "v", "title"}
 var pvals = []string{"utf-8", "1", "2", `"a b"`, `"1"`, "UTF-8", `"x,y"`, `"x\"y"`, `"q\\"`, `"x\,"`, `"\,\\\""`, `"\;q=0"`}
